@@ -159,8 +159,14 @@ fn verdicts(text: &str, docs: &[DObj]) -> Result<Vec<bool>, String> {
 }
 
 const PLAIN: [&str; 3] = ["A", "B", "C"];
-const RENAMES: [[&str; 3]; 3] =
-    [["android", "order", "nothing"], ["allow", "offline", "integer"], ["stringent", "notes", "flt1"]];
+const RENAMES: [[&str; 3]; 5] = [
+    ["android", "order", "nothing"],
+    ["allow", "offline", "integer"],
+    ["stringent", "notes", "flt1"],
+    // keyword letters followed by an identifier character that is not a letter
+    ["or.else", "and[0]", "not#1"],
+    ["and.x", "or#", "not_"],
+];
 
 fn rename(cond: &str, to: &[&str; 3]) -> String {
     // identifiers A, B, C only occur as whole words in the generated conditions
